@@ -17,6 +17,7 @@ FitPts(kind, nn) == CASE kind = "affine" -> (IF nn = 3 THEN <<<<0, 0>>, <<4, 0>>
                       [] kind = "bilinear" -> (IF nn = 4 THEN Grid(2, 2) ELSE Grid(4, 2))
                       [] kind = "biquad" -> (IF nn = 9 THEN Grid(3, 3) ELSE Grid(4, 3))
 
+Mags == {0, -14, -22, 12}
 CasesFor(k) ==
   CASE k = "split" -> {[op |-> "split", n |-> n] : n \in -40..40}
     [] k = "nearint" -> {[op |-> "nearint", n |-> n, tol |-> t] : n \in NearNs, t \in Tols}
@@ -29,12 +30,14 @@ CasesFor(k) ==
     [] k = "snapaffine" -> {[op |-> "snapaffine", sx |-> sx, tx |-> tx, sy |-> sy, ty |-> ty, rot |-> rot, tol |-> t, stol |-> st] :
                               sx \in {1024, 2049, 3064, -1016}, tx \in {5120, 5121, 5130, -3073, 700}, sy \in {-1024, -1025, 2040}, ty \in {0, 9, -1, 40},
                               rot \in {0, 16}, t \in Tols, st \in Tols}      \* tol: translation tolerance, stol: scale tolerance (independent)
-    [] k = "rws" -> {[op |-> "rws", R |-> R, w2 |-> w, sx2 |-> sx, sy2 |-> sy] : R \in Rots, w \in {0, 1, -1, 2, -2}, sx \in {2, -2, 1, 4}, sy \in {2, -2, -1, 6}}
-    [] k = "affpts" -> {[op |-> "affpts", A |-> A, X |-> X] : A \in AffInts, X \in PtSets}
+    \* mag: the WORLD side of the mapping is multiplied by 2^mag (exact in binary floating point) and the answers divided back: the contracts are about
+    \* mappings, not about the size of their numbers (degrees per pixel ~ 2^-14 ... thousands of metres per pixel)
+    [] k = "rws" -> {[op |-> "rws", R |-> R, w2 |-> w, sx2 |-> sx, sy2 |-> sy, mag |-> m] : R \in Rots, w \in {0, 1, -1, 2, -2}, sx \in {2, -2, 1, 4}, sy \in {2, -2, -1, 6}, m \in Mags}
+    [] k = "affpts" -> {[op |-> "affpts", A |-> A, X |-> X, mag |-> m] : A \in AffInts, X \in PtSets, m \in Mags}
     [] k = "axis" -> {[op |-> "axis", x0 |-> x0, rx |-> rx, nx |-> nx, y0 |-> 3, ry |-> ry, ny |-> ny] :
                         x0 \in {0, -5, 7}, rx \in {2, -2, 1, 5}, nx \in {1, 2, 5}, ry \in {-2, 3}, ny \in {1, 3}}
     [] k = "bin1d" -> {[op |-> "bin1d", sz |-> sz, o |-> o, dir |-> d, idx |-> i] : sz \in {4, 6, 1}, o \in {0, -6, 2}, d \in {1, -1}, i \in {-2, 0, 3}}
-    [] k = "poly" -> {[op |-> "poly", kind |-> kd, nn |-> nn, T |-> T] : kd \in {"affine", "bilinear", "biquad"}, nn \in {3, 4, 6, 8, 9, 12},
+    [] k = "poly" -> {[op |-> "poly", kind |-> kd, nn |-> nn, T |-> T, mag |-> (((T[1] + 2 * T[2] + 3 * T[4] + T[5] + 6) % 3) * 13) - 14] : kd \in {"affine", "bilinear", "biquad"}, nn \in {3, 4, 6, 8, 9, 12},
                         \* input transforms: every invertible integer matrix with entries in -1..2 (scales, mirrors, rotations, shears in the x row only,
                         \* in the y row only, in both), two translations
                         T \in {<<a, b, t[1], d, e, t[2]>> : a \in -1..2, b \in -1..2, d \in -1..2, e \in -1..2, t \in {<<0, 0>>, <<2, 1>>}} \ {x \in [1..6 -> -1..2] : x[1] * x[5] - x[2] * x[4] = 0}}
